@@ -403,7 +403,7 @@ func c23Check(c c23Case, r *ev.Recorder) *Failure {
 			if len(ids) > 0 {
 				id := ids[op.K%len(ids)]
 				p.cursor = id.s + op.Delta%(id.e-id.s+1)
-				for p.cursor > id.s && !utf8.RuneStart(content[p.cursor]) {
+				for p.cursor > id.s && p.cursor < len(content) && !utf8.RuneStart(content[p.cursor]) {
 					p.cursor--
 				}
 				p.ident = content[id.s:id.e]
